@@ -249,3 +249,8 @@ def run(ctx):
                 if rm and any(own.control_edges(f, f.cfg.point(x)[0]) == own.control_edges(f, f.cfg.point(c)[0]) for x in rm):
                     okp = True
         ctx.ob('TMP-PAIR', '%s.%s' % (rec, fld), okp, sites[0][0].loc(sites[0][1]), 'temp file %s.%s %s' % (rec, fld, 'is fclosed and removed under the same guards' if okp else 'is NOT both fclosed and removed'), None)
+
+    ctx.rule('FD-VALID', 'every test of a descriptor value against a constant is `< 0`, `>= 0` or an (in)equality with a negative code: descriptor 0 is valid and must be closed like any other', floor=6)
+    from engine.fdvalid import fd_valid
+    fd_valid(ctx, prog)
+
